@@ -1,3 +1,4 @@
+import Feox.Conc.Reserve
 import Feox.Kv.StepAcc
 /-!
 # C13 — memory accounting is exact; the limit is never exceeded by admitted writes
@@ -77,5 +78,42 @@ example : (run { cfg := { recSize := 168 } } [.insert [1] [2, 3] none 0 false 0 
     .delete [1] none 0 300]).1.mem = 0 := by decide
 
 example : (run { cfg := { recSize := 168 } } [.insert [1] [2, 3] none 0 false 0 100]).1.mem = 171 := by decide
+
+/-! ### under contention (model `Feox.Conc.Reserve`: loads, weak compare-exchanges that may fail
+spuriously, releases, by any number of threads in any order) -/
+
+/-- **No interleaving pushes usage above the limit**: whatever the schedule of reservation
+attempts and releases, a store that starts within its limit stays within it. -/
+theorem limit_never_exceeded_concurrently (l init : Nat) (hinit : init ≤ l) (p : Feox.Conc.Reserve.Pcs)
+    (es : List Feox.Conc.Reserve.Ev) :
+    (Feox.Conc.Reserve.run { usage := init, limit := some l, base := init } p es).1.usage ≤ l := by
+  have h0 : Feox.Conc.Reserve.Inv { usage := init, limit := some l, base := init } :=
+    ⟨by simp, by simp, by intro l' hl; simp at hl; subst hl; exact hinit⟩
+  have hl : (Feox.Conc.Reserve.run { usage := init, limit := some l, base := init } p es).1.limit = some l := by
+    generalize hs : ({ usage := init, limit := some l, base := init } : Feox.Conc.Reserve.State) = s
+    have hs' : s.limit = some l := by subst hs; rfl
+    clear hs h0
+    induction es generalizing s p with
+    | nil => exact hs'
+    | cons e es ih =>
+      simp only [Feox.Conc.Reserve.run]
+      apply ih
+      cases e <;> simp only [Feox.Conc.Reserve.step] <;> (repeat' split) <;> simp_all
+  exact (Feox.Conc.Reserve.run_inv es _ p h0).bound l hl
+
+/-- **… and the counter stays exact**: usage = what it started with + everything granted −
+everything given back, at every instant of every schedule (a failed or spurious compare-exchange
+and a refused reservation change nothing). -/
+theorem concurrent_counter_exact (s : Feox.Conc.Reserve.State) (p : Feox.Conc.Reserve.Pcs) (es : List Feox.Conc.Reserve.Ev)
+    (h : Feox.Conc.Reserve.Inv s) :
+    let s' := (Feox.Conc.Reserve.run s p es).1
+    s'.usage + s'.released = s'.base + s'.granted :=
+  (Feox.Conc.Reserve.run_inv es s p h).exact
+
+/- non-vacuity: two threads race for the last 10 bytes under a limit of 100; one is refused -/
+example :
+    let r := Feox.Conc.Reserve.run { usage := 90, limit := some 100, base := 90 } (fun _ => .idle)
+      [.load 0 10, .load 1 10, .cas 0 false, .cas 1 false, .cas 1 false]
+    r.1.usage = 100 := by decide
 
 end Feox.C13
